@@ -15,6 +15,7 @@ structure W where
   world : World := {}
   faults : List Nat := []
   tracked : List String := []        -- addresses whose balances are printed
+  gstates : List DState := []        -- genesis states being assembled by d.gstate
 deriving Inhabited
 
 /-- account token `TYPE|id|b` -/
@@ -98,6 +99,16 @@ def step (w : W) (toks : List String) : W × String :=
       let b := w.world.bank
       ({ w with world := { w.world with bank := { b with bal := b.bal.set addr (CoinList.add (b.balance addr) c) } } }, ".")
     | none => (w, "bad-op")
+  | ["d.gstate", burn, acct, coins] =>
+    match (if acct = "-" then some none else (parseAccount acct).map some), parseCoins coins with
+    | some a, some c => ({ w with gstates := w.gstates ++ [{ account := a, burn := burn = "1", remains := c }] }, ".")
+    | _, _ => (w, "bad-op")
+  | ["d.ginit"] =>
+    -- `GenesisState.Validate` on the stored parameters and the assembled states, then `InitGenesis`
+    if genesisValid w.env w.params w.gstates then
+      let sts := initStates w.gstates
+      ({ w with world := { w.world with states := sts }, gstates := [] }, s!"ok states=[{";".intercalate (sts.map showState)}]")
+    else ({ w with gstates := [] }, "err")
   | "d.faults" :: ks =>
     ({ w with faults := ks.filterMap nat? }, ".")
   | ["d.bb"] =>
